@@ -980,6 +980,117 @@ Proof.
   - destruct (0 <? linger cfg); simpl; auto.
 Qed.
 
+(* ---------------------------------------------------------------- inside _clientDisconnect *)
+Lemma update_absent : forall id s' t, lookup id t = None -> update id s' t = t.
+Proof.
+  induction t as [|[k s] t IH]; simpl; intros H; auto.
+  destruct (k =? id); [discriminate|]. rewrite IH; auto.
+Qed.
+
+Lemma micro_step_lookup_none : forall cfg nw t m id, lookup id t = None -> lookup id (micro_step cfg nw t m) = None.
+Proof.
+  intros cfg nw t m id H. destruct m as [c k|k]; simpl.
+  - unfold disc_visit. destruct (lookup k t) as [s|] eqn:L; auto.
+    destruct (owned_by c s); auto. destruct (N.eq_dec k id); [subst; congruence|].
+    destruct (0 <? linger cfg).
+    + rewrite lookup_update_other; auto.
+    + rewrite lookup_remove_other; auto.
+  - destruct (N.eq_dec k id); [subst; apply lookup_remove_same|]. rewrite lookup_remove_other; auto.
+Qed.
+
+(* no interleaving of disconnect iterations and removals ever (re-)inserts a stream *)
+Lemma micro_never_reinserts : forall cfg nw ms t id, lookup id t = None -> lookup id (micro_run cfg nw t ms) = None.
+Proof.
+  unfold micro_run. induction ms as [|m ms IH]; intros t id H; simpl; auto.
+  apply IH. apply micro_step_lookup_none; auto.
+Qed.
+
+Lemma micro_run_app : forall cfg nw a b t, micro_run cfg nw t (a ++ b) = micro_run cfg nw (micro_run cfg nw t a) b.
+Proof. intros. unfold micro_run. apply fold_left_app. Qed.
+
+(* a stream closed / exhausted / reaped at any point of any such interleaving is not in the table at its end *)
+Lemma closed_never_reinserted : forall cfg nw ms1 ms2 t id,
+  lookup id (micro_run cfg nw t (ms1 ++ MRemove id :: ms2)) = None.
+Proof.
+  intros. rewrite micro_run_app. change (MRemove id :: ms2) with ([MRemove id] ++ ms2). rewrite micro_run_app.
+  apply micro_never_reinserts. simpl. apply lookup_remove_same.
+Qed.
+
+(* what one stream sees of a whole pass of the loop *)
+Definition visit_result (cfg : config) (nw : N) (c : conn) (o : option stream) : option stream :=
+  match o with
+  | None => None
+  | Some s => if owned_by c s then (if 0 <? linger cfg then Some (disconnect_stream cfg nw c s) else None) else Some s
+  end.
+
+Lemma disc_visit_lookup : forall cfg nw c k t id,
+  lookup id (disc_visit cfg nw c k t) = if k =? id then visit_result cfg nw c (lookup id t) else lookup id t.
+Proof.
+  intros. unfold disc_visit, visit_result. destruct (N.eqb_spec k id).
+  - subst. destruct (lookup id t) as [s|] eqn:L; [|rewrite L; auto].
+    destruct (owned_by c s); [|rewrite L; auto]. destruct (0 <? linger cfg).
+    + erewrite lookup_update_same; eauto.
+    + apply lookup_remove_same.
+  - destruct (lookup k t) as [s|]; auto. destruct (owned_by c s); auto. destruct (0 <? linger cfg).
+    + apply lookup_update_other; auto.
+    + apply lookup_remove_other; auto.
+Qed.
+
+Lemma visits_lookup : forall cfg nw c ks t id, NoDup ks ->
+  lookup id (micro_run cfg nw t (map (MVisit c) ks)) =
+  if existsb (N.eqb id) ks then visit_result cfg nw c (lookup id t) else lookup id t.
+Proof.
+  unfold micro_run. induction ks as [|k ks IH]; intros t id ND; [reflexivity|].
+  inversion ND; subst. cbn [map fold_left micro_step existsb]. rewrite IH by auto. rewrite disc_visit_lookup.
+  destruct (N.eqb_spec id k).
+  - subst. rewrite N.eqb_refl. simpl.
+    replace (existsb (N.eqb k) ks) with false; auto. symmetry.
+    destruct (existsb (N.eqb k) ks) eqn:E; auto. apply existsb_exists in E. destruct E as [x [IN EQ]].
+    apply N.eqb_eq in EQ. subst. contradiction.
+  - destruct (N.eqb_spec k id); [congruence|]. simpl. reflexivity.
+Qed.
+
+(* the atomic Disconnect step of the model is exactly one undisturbed pass of the loop *)
+Lemma disconnect_is_visits : forall cfg st c id, inv st ->
+  lookup id (tbl (fst (step cfg st (Disconnect c)))) =
+  lookup id (micro_run cfg (now st) (tbl st) (map (MVisit c) (keys (tbl st)))).
+Proof.
+  intros cfg st c id I. rewrite lookup_step by auto. rewrite visits_lookup by (apply inv_nodup; auto).
+  simpl. unfold visit_result. destruct (lookup id (tbl st)) as [s|] eqn:L.
+  - replace (existsb (N.eqb id) (keys (tbl st))) with true.
+    + unfold disconnect_stream. destruct (owned_by c s); destruct (0 <? linger cfg); reflexivity.
+    + symmetry. apply existsb_exists. exists id. split; [eapply lookup_some_key; eauto | apply N.eqb_refl].
+  - destruct (existsb (N.eqb id) (keys (tbl st))); reflexivity.
+Qed.
+
+Lemma NoDup_app_parts : forall (a b : list sid), NoDup (a ++ b) -> NoDup a /\ NoDup b.
+Proof.
+  induction a as [|x a IH]; intros b H; simpl in *; [split; [constructor|auto]|].
+  inversion H; subst. destruct (IH _ H3) as [A B]. split; auto. constructor; auto.
+  intro I. apply H2. apply in_or_app. auto.
+Qed.
+
+(* a pass of the loop disturbed by a removal at any point ends, for every stream, as: the removal, then an
+   undisturbed pass — the outcome does not depend on where the other thread got in *)
+Lemma racing_disconnect_outcome : forall cfg nw c ks1 ks2 id t k, NoDup (ks1 ++ ks2) ->
+  lookup k (micro_run cfg nw t (map (MVisit c) ks1 ++ MRemove id :: map (MVisit c) ks2)) =
+  lookup k (micro_run cfg nw (remove id t) (map (MVisit c) (ks1 ++ ks2))).
+Proof.
+  intros cfg nw c ks1 ks2 id t k ND.
+  destruct (N.eq_dec k id) as [E|NE].
+  - subst. rewrite closed_never_reinserted. symmetry. apply micro_never_reinserts. apply lookup_remove_same.
+  - rewrite micro_run_app. change (MRemove id :: map (MVisit c) ks2) with ([MRemove id] ++ map (MVisit c) ks2).
+    rewrite micro_run_app. destruct (NoDup_app_parts _ _ ND) as [ND1 ND2].
+    rewrite visits_lookup by auto. cbn [micro_run fold_left micro_step]. rewrite lookup_remove_other by auto.
+    rewrite visits_lookup by auto. rewrite visits_lookup by auto. rewrite lookup_remove_other by auto.
+    rewrite existsb_app. unfold sid in *.
+    destruct (existsb (N.eqb k) ks1) eqn:E1; destruct (existsb (N.eqb k) ks2) eqn:E2; rewrite ?E1, ?E2; simpl; auto.
+    exfalso. apply existsb_exists in E1. apply existsb_exists in E2.
+    destruct E1 as [x [I1 Q1]]. destruct E2 as [y [I2 Q2]]. apply N.eqb_eq in Q1. apply N.eqb_eq in Q2. subst x y.
+    clear - ND I1 I2. induction ks1 as [|a ks1 IH]; [destruct I1|]. simpl in ND. inversion ND; subst.
+    destruct I1 as [->|I1]; [apply H1; apply in_or_app; auto | auto].
+Qed.
+
 (* ---------------------------------------------------------------- client layer *)
 Local Opaque step.
 
